@@ -161,7 +161,7 @@ class Ctx:
             self.log({"end": cid, "verdict": "violated", "violations": c.failed,
                       "desc": _jsonable(c.desc), "worker": self.worker, "k": k})
         else:
-            self.log({"end": cid, "verdict": "ok", "n": c.checked})
+            self.log({"end": cid, "verdict": "ok", "n": c.checked, "desc": _jsonable(c.desc)})
         return c
 
     def finish(self):
